@@ -5,16 +5,17 @@
 // per-entry fault scripts, and real disk caches (both storage modes) on top of those proxies.
 //
 // Cases (one PRNG, deterministic regression cases first in every shard):
-//   GET / CONTAINS  backend x storage mode x kind x size known/unknown, the backend healthy, failing
-//                   before the response, answering each interesting status / gRPC code, cutting the
-//                   stream at offset 0, 1, middle, last byte, failing after the last byte, lying in
-//                   the size metadata (wrong, missing, negative, unparsable), oversize; observed at the
-//                   proxy (Proxy.Get/Contains called directly, stream drained) and at disk.Cache;
-//   UPLOAD          UploadFile of both proxies on scripted readers: every WriteRequest / HTTP request
-//                   as seen on the wire, Close calls on the reader;
-//   QUEUE           the bounded upload queue behind Put with the backend holding the uploads;
-//   WRITE-THROUGH   disk.Cache.Put -> asynchronous upload -> a second cache reads the entry back;
-//                   backend healthy, rejecting, failing, slow; 2 MiB + 1 and 4 MiB + 1 entries over gRPC.
+//
+//	GET / CONTAINS  backend x storage mode x kind x size known/unknown, the backend healthy, failing
+//	                before the response, answering each interesting status / gRPC code, cutting the
+//	                stream at offset 0, 1, middle, last byte, failing after the last byte, lying in
+//	                the size metadata (wrong, missing, negative, unparsable), oversize; observed at the
+//	                proxy (Proxy.Get/Contains called directly, stream drained) and at disk.Cache;
+//	UPLOAD          UploadFile of both proxies on scripted readers: every WriteRequest / HTTP request
+//	                as seen on the wire, Close calls on the reader;
+//	QUEUE           the bounded upload queue behind Put with the backend holding the uploads;
+//	WRITE-THROUGH   disk.Cache.Put -> asynchronous upload -> a second cache reads the entry back;
+//	                backend healthy, rejecting, failing, slow; 2 MiB + 1 and 4 MiB + 1 entries over gRPC.
 //
 // The Coq cases file evaluates Model/ProxyBackends.v (proxy_case_ok) on the same inputs.  Direct
 // oracles (independent of the model): a hit never returns other bytes than the entry; every fault
@@ -23,8 +24,9 @@
 // delays nor fails the local Put; every WriteRequest fits a stock gRPC receiver; readers are closed;
 // no goroutine, connection or file descriptor is left behind at the end of the shard.
 //
-// Argument "f33": also generate the FetchBlob answer "OK without blob_digest" (finding: the proxy
-// dereferences nil).
+// Regression F33: a FetchBlob answer "OK without blob_digest" (Get / Contains of a CAS entry of
+// unknown size) must give an error / no, never a panic; generated first in every shard and in the
+// random rotation.
 package main
 
 import (
@@ -134,10 +136,7 @@ func (e *env) randomGet() {
 		} else {
 			faults := []string{"ok", "ok", "first", "first", "cut", "cut", "cut", "end-err", "short-clean", "extra", "cancelled"}
 			if !s.known {
-				faults = append(faults, "fb-rpc", "fb-rpc", "fb-status", "fb-status", "fb-size", "fb-size", "fb-size-abs", "fb-nil-status", "non-hex")
-				if e.f33 {
-					faults = append(faults, "fb-nil-digest")
-				}
+				faults = append(faults, "fb-rpc", "fb-rpc", "fb-status", "fb-status", "fb-size", "fb-size", "fb-size-abs", "fb-nil-status", "fb-nil-digest", "non-hex")
 			}
 			s.fault = faults[e.r.Intn(len(faults))]
 			switch s.fault {
@@ -152,6 +151,8 @@ func (e *env) randomGet() {
 				}
 			case "fb-size-abs":
 				s.arg = []int{-5, 0, -1, 1 << 41}[e.r.Intn(4)]
+			case "fb-nil-digest":
+				s.arg = e.r.Intn(2)
 			case "cut", "short-clean":
 				if lower < 1 {
 					s.fault = "first"
@@ -197,10 +198,7 @@ func (e *env) randomHas() {
 				s.arg = grpcCodes[e.r.Intn(len(grpcCodes))]
 			}
 		default:
-			faults := []string{"ok", "ok", "fb-rpc", "fb-status", "fb-size-abs", "non-hex", "cancelled"}
-			if e.f33 {
-				faults = append(faults, "fb-nil-digest")
-			}
+			faults := []string{"ok", "ok", "fb-rpc", "fb-status", "fb-size-abs", "fb-nil-digest", "non-hex", "cancelled"}
 			s.fault = faults[e.r.Intn(len(faults))]
 			switch s.fault {
 			case "fb-rpc":
@@ -209,6 +207,8 @@ func (e *env) randomHas() {
 				s.arg = []int{5, 13, 14}[e.r.Intn(3)]
 			case "fb-size-abs":
 				s.arg = []int{-5, 0, 77, 1 << 41}[e.r.Intn(4)]
+			case "fb-nil-digest":
+				s.arg = e.r.Intn(2)
 			}
 		}
 	default:
@@ -305,6 +305,19 @@ func (e *env) randomCase() {
 func (e *env) regression() []func() {
 	big2, big4 := 2<<20+1, 4<<20+1
 	return []func(){
+		// F33: FetchBlob answers OK (explicitly / with no status at all) without a blob_digest
+		func() {
+			e.runGet(getSpec{be: beGRPC, m: 0, kind: cache.CAS, known: false, size: 100, fault: "fb-nil-digest"})
+		},
+		func() {
+			e.runGet(getSpec{be: beGRPC, m: 1, kind: cache.CAS, known: false, size: 4097, fault: "fb-nil-digest", arg: 1})
+		},
+		func() {
+			e.runHas(hasSpec{be: beGRPC, m: 1, kind: cache.CAS, known: false, size: 100, fault: "fb-nil-digest"})
+		},
+		func() {
+			e.runHas(hasSpec{be: beGRPC, m: 0, kind: cache.CAS, known: false, size: 100, fault: "fb-nil-digest", arg: 1})
+		},
 		// the large gRPC entries, both directions, both storage modes (incompressible content)
 		func() { e.runWriteThrough(beGRPC, 0, cache.CAS, big4, false, "ok") },
 		func() { e.runWriteThrough(beGRPC, 1, cache.CAS, big2, false, "ok") },
@@ -314,19 +327,41 @@ func (e *env) regression() []func() {
 		func() { e.runGrpcUp(0, 0, 0, 0, "ok", 0) },
 		// one healthy read and one fault per backend
 		func() { e.runGet(getSpec{be: beHTTP, m: 1, kind: cache.CAS, known: false, size: 4097, fault: "ok"}) },
-		func() { e.runGet(getSpec{be: beHTTP, m: 0, kind: cache.CAS, known: true, size: 4097, fault: "cut", arg: 4096}) },
-		func() { e.runGet(getSpec{be: beHTTP, m: 0, kind: cache.AC, known: false, size: 100, fault: "status", arg: 204}) },
-		func() { e.runGet(getSpec{be: beHTTP, m: 1, kind: cache.CAS, known: true, size: 4096, fault: "chunked-noterm"}) },
-		func() { e.runGet(getSpec{be: beHTTP, m: 0, kind: cache.AC, known: false, size: 0, fault: "status", arg: 204}) },
-		func() { e.runGet(getSpec{be: beHTTP, m: 1, kind: cache.RAW, known: false, size: 0, fault: "status", arg: 206}) },
+		func() {
+			e.runGet(getSpec{be: beHTTP, m: 0, kind: cache.CAS, known: true, size: 4097, fault: "cut", arg: 4096})
+		},
+		func() {
+			e.runGet(getSpec{be: beHTTP, m: 0, kind: cache.AC, known: false, size: 100, fault: "status", arg: 204})
+		},
+		func() {
+			e.runGet(getSpec{be: beHTTP, m: 1, kind: cache.CAS, known: true, size: 4096, fault: "chunked-noterm"})
+		},
+		func() {
+			e.runGet(getSpec{be: beHTTP, m: 0, kind: cache.AC, known: false, size: 0, fault: "status", arg: 204})
+		},
+		func() {
+			e.runGet(getSpec{be: beHTTP, m: 1, kind: cache.RAW, known: false, size: 0, fault: "status", arg: 206})
+		},
 		func() { e.runGet(getSpec{be: beView, m: 0, kind: cache.RAW, known: false, size: 100, fault: "cl-neg"}) },
-		func() { e.runGet(getSpec{be: beGRPC, m: 0, kind: cache.CAS, known: true, size: 4097, fault: "end-err"}) },
+		func() {
+			e.runGet(getSpec{be: beGRPC, m: 0, kind: cache.CAS, known: true, size: 4097, fault: "end-err"})
+		},
 		func() { e.runGet(getSpec{be: beGRPC, m: 1, kind: cache.CAS, known: false, size: 4096, fault: "ok"}) },
-		func() { e.runGet(getSpec{be: beGRPC, m: 1, kind: cache.CAS, known: false, size: 4096, fault: "fb-status", arg: 5}) },
-		func() { e.runGet(getSpec{be: beGRPC, m: 0, kind: cache.AC, known: false, size: 100, fault: "code", arg: 5}) },
-		func() { e.runGet(getSpec{be: beClosed, m: 0, kind: cache.CAS, known: true, size: 100, fault: "closed"}) },
-		func() { e.runGet(getSpec{be: beGRPC, m: 0, kind: cache.CAS, known: false, small: true, size: 4097, fault: "ok"}) },
-		func() { e.runHas(hasSpec{be: beGRPC, m: 0, kind: cache.CAS, known: true, size: 100, fault: "missing", arg: 2}) },
+		func() {
+			e.runGet(getSpec{be: beGRPC, m: 1, kind: cache.CAS, known: false, size: 4096, fault: "fb-status", arg: 5})
+		},
+		func() {
+			e.runGet(getSpec{be: beGRPC, m: 0, kind: cache.AC, known: false, size: 100, fault: "code", arg: 5})
+		},
+		func() {
+			e.runGet(getSpec{be: beClosed, m: 0, kind: cache.CAS, known: true, size: 100, fault: "closed"})
+		},
+		func() {
+			e.runGet(getSpec{be: beGRPC, m: 0, kind: cache.CAS, known: false, small: true, size: 4097, fault: "ok"})
+		},
+		func() {
+			e.runHas(hasSpec{be: beGRPC, m: 0, kind: cache.CAS, known: true, size: 100, fault: "missing", arg: 2})
+		},
 		func() { e.runHas(hasSpec{be: beHTTP, m: 1, kind: cache.CAS, known: false, size: 100, fault: "ok"}) },
 		func() { e.runQueue(true, 0, 1, 2, 4) },
 		func() { e.runQueue(false, 1, 2, 1, 3) },
@@ -339,7 +374,7 @@ func (e *env) regression() []func() {
 	}
 }
 
-func driver(seed uint64, n int, outV, outJSON string, args []string) {
+func driver(seed uint64, n int, outV, outJSON string, _ []string) {
 	log.SetOutput(io.Discard)
 	// a case that hangs must not hang the check
 	wd := time.AfterFunc(9*time.Minute, func() {
@@ -352,11 +387,6 @@ func driver(seed uint64, n int, outV, outJSON string, args []string) {
 	rep.Rule = "generated (backend in {http over the real client, http response handed in directly, grpc, grpc over a closed connection} x storage mode x kind x size known/unknown x max_proxy_blob_size) with one fault (none, before the response, status / code, size metadata, stream cut at offset 0 / 1 / middle / last byte, error after the last byte, oversize) for Get and Contains; UploadFile on scripted readers; queue; write-through; a case is non-trivial if it carries a fault or is a CAS entry; distinct = distinct case texts among those"
 	fd0 := fdCount()
 	e := newEnv(seed, rep)
-	for _, a := range args {
-		if a == "f33" {
-			e.f33 = true
-		}
-	}
 	for _, f := range e.regression() {
 		if len(e.cases) >= n {
 			break
@@ -365,10 +395,6 @@ func driver(seed uint64, n int, outV, outJSON string, args []string) {
 	}
 	for len(e.cases) < n {
 		e.randomCase()
-	}
-	if e.f33 && n > 2 {
-		e.runGet(getSpec{be: beGRPC, m: 0, kind: cache.CAS, known: false, size: 100, fault: "fb-nil-digest"})
-		e.runHas(hasSpec{be: beGRPC, m: 1, kind: cache.CAS, known: false, size: 100, fault: "fb-nil-digest"})
 	}
 
 	// nothing is left behind: no call or connection of a proxy is still alive once every request
